@@ -6,7 +6,7 @@ use num_bigint::BigUint;
 use num_traits::Zero;
 
 use super::c01::locked_min;
-use crate::exact::{normalise, res, Stable};
+use crate::exact::{normalise, normalise_any, res, Stable};
 use crate::sim::{coins_to_map, viol, MResult, Monitor, Obs, SimCore};
 use crate::trace::{Op, Step};
 use crate::world::{supply, TxOut};
@@ -49,10 +49,13 @@ impl C19 {
             _ => return Ok(()),
         };
         let rs = order(pool);
-        let (xs, mx) = match normalise(&rs, &pool.asset_decimals) {
+        let (xs, mx) = match normalise_any(&rs, &pool.asset_decimals) {
             Some(x) => x,
             None => return Ok(()),
         };
+        if mx > 18 {
+            c.stats.bump("probe.c19.quote_on_pool_beyond_18_decimals");
+        }
         if rs.iter().any(|x| *x == 0) || offer == 0 {
             return Ok(());
         }
@@ -199,6 +202,22 @@ impl Monitor for C19 {
             };
             if i == j {
                 return Ok(());
+            }
+            // a trade of an asset against itself has no solution: quotes and route hops must refuse it
+            for k in [i, j] {
+                let d = p.asset_denoms[k].clone();
+                let amt = (order(&p)[k] / 1000).max(1);
+                let q: Result<SimulationResponse, _> = c.w.app.wrap().query_wasm_smart(
+                    c.w.a.pm.to_string(),
+                    &QueryMsg::Simulation { offer_asset: coin(amt, d.clone()), ask_asset_denom: d.clone(), pool_identifier: p.pool_identifier.clone() },
+                );
+                c.stats.bump("probe.c19.same_asset_quote_probed");
+                if let Ok(q) = q {
+                    return Err(viol(
+                        "C19.same_asset_trade_priced",
+                        format!("pool {}: offering {amt}{d} for {d} is quoted {} instead of being refused", p.pool_identifier, q.return_amount),
+                    ));
+                }
             }
             let ri = order(&p)[i];
             let mut offers = vec![*oa, 1, 10, ri / 1000 + 1, ri / 10 + 1, ri, ri.saturating_mul(3)];
